@@ -59,7 +59,7 @@ Theorem C05_reply_taken_return_requeued : forall sc s c v0 v u f l held,
   exists s' v', wait_rpc sc s c v0 u false held = (s', v', Ok tt, sc) /\
                 get_chan (s_chans s') c = Some v' /\
                 c_errs v' = held ++ c_errs v /\
-                c_req v' = c_req v /\ resp_get (c_resp v') u = Some (f :: l) /\
+                c_req v' = c_req v /\ c_resp v' = c_resp v /\
                 s_out s' = s_out s.
 Proof. exact wait_rpc_reply_requeues. Qed.
 Print Assumptions C05_reply_taken_return_requeued.
@@ -136,3 +136,31 @@ Theorem C05_source_dispatch_table :
   gen_return_content_first = true.
 Proof. vm_compute. reflexivity. Qed.
 Print Assumptions C05_source_dispatch_table.
+
+(* ---------- own reply, returns included ---------- *)
+From AV Require Import Proofs.RpcRetP.
+(* The full statement after the repairs: for ANY script in which the frames before the reply
+   neither answer the call nor close the channel - deliveries, cancels, unknown frames, traffic of
+   other channels AND any number of returned messages with their content, in any number of reads,
+   whatever return content was still on its way when the call started - a call whose reply is not
+   itself a content frame returns exactly the first frame that answers it and leaves no
+   bookkeeping behind. *)
+Theorem C05_own_reply_with_returns : forall s c v w wstr names pre tpre f tpost rest,
+  c <> 0%nat -> get_chan (s_chans s) c = Some v -> conn_healthy s -> s_io s = true ->
+  s_sendfail s = false ->
+  c_state v = OPEN -> c_errs v = [] -> c_req v = [] -> c_resp v = [] ->
+  forallb (fun t => forallb (mild c names) t) pre = true ->
+  forallb (mild c names) tpre = true -> in_names (f_name f) names = true ->
+  is_content (f_name f) = false ->
+  exists s' v',
+    rpc_request (pre ++ (tpre ++ (c, f) :: tpost) :: rest) s c v w wstr names false
+      = (s', v', Ok (Some f), rest) /\
+    c_req v' = [] /\ c_resp v' = [] /\ get_chan (s_chans s') c = Some v'.
+Proof. exact rpc_request_own_reply_with_returns. Qed.
+Print Assumptions C05_own_reply_with_returns.
+
+Example C05_returns_are_mild :
+  mild 1 [NDeclareOk] (1%nat, {| f_name := NReturn; f_num := 312; f_str := [] |}) = true /\
+  mild 1 [NDeclareOk] (1%nat, {| f_name := NHeader; f_num := 0; f_str := [] |}) = true /\
+  mild 1 [NDeclareOk] (1%nat, {| f_name := NDeclareOk; f_num := 1; f_str := [] |}) = false.
+Proof. exact own_reply_with_returns_nonvacuous. Qed.
